@@ -63,6 +63,14 @@ S6 == {Struct("S", <<Field("A", "", {"omitempty"}, Prim("int8")), Field("B", "",
                      Field("C", "", {"omitzero"}, Prim("bool")), Field("D", "", {"omitzero"}, Slice(Prim("string")))>>),
        Struct("S", <<Field("Count", "", {"omitzero"}, Prim("int")), Field("Label", "", {"omitzero"}, Prim("string")),
                      Field("In", "", {}, Struct("Lim", <<Field("Lo", "", {"omitempty"}, Prim("uint8")), Field("Hi", "", {"omitempty"}, Prim("float64"))>>))>>)}
+\* two levels of embedding with one JSON name claimed at depth 1 and at depth 2 (different Go names): the
+\* shallower field is the one encoding/json emits. (Family X: the known finding KF-jsonname - here the code gets the
+\* property's schema right and lists the name twice in "required")
+Aud == Struct("Aud", <<Field("Stamp", "rev", {}, Prim("string"))>>)
+Mid2 == Struct("Mid2", <<Embed("Aud", "value", Aud), Field("Revision", "rev", {}, Prim("int8")), Field("Owner", "", {}, Prim("string"))>>)
+S7 == {Struct("S", <<Embed("Mid2", "value", Mid2), Field("Title", "", {}, Prim("string"))>>),
+       Struct("S", <<Embed("Mid2", "ptr", Mid2), Field("Title", "", {}, Prim("string"))>>),
+       Slice(Struct("S", <<Embed("Mid2", "value", Mid2)>>))}
 \* one JSON name claimed by two fields (dominant-field rule on JSON names), and a tagged embedded field
 S4 == {Struct("S", <<Field("P", "b", {}, Prim("int8")), Embed("Emb", "value", Emb)>>),          \* outer "b" (depth 0) vs Emb.B "b" (depth 1)
        Struct("S", <<Embed("Emb", "value", Emb), Field("P", "b", {}, Prim("int8"))>>),
@@ -138,7 +146,7 @@ OCases == {[t |-> t, ign |-> ign, tsn |-> "none"] : t \in ODesc, ign \in BOOLEAN
 Types(z) ==
   CASE Family = "T" -> IF K >= 2 THEN UNION {T1, T2, T3} ELSE UNION {T1, T2}
     [] Family = "S" -> IF K >= 2 THEN UNION {S1, S2, S3, S5, S6} ELSE UNION {S1, S3, S5, S6}
-    [] Family = "X" -> S4
+    [] Family = "X" -> S4 \cup S7
     [] Family = "O" -> OCases
 
 Init == cs \in Types(0) /\ phase = "new"
